@@ -3,8 +3,8 @@
    onWrite, getPosForGreaterOrEqualTime, getPosForLessTime, rebuildIndex(Int), syncChunks/lightFill/apply,
    readData.  The per-chunk index is the flat record list of model/TmTree.v.
 
-   The parameter fix_zero selects the proposed repair of "0 means unset" in rebuildIndexInt
-   (segment max starts at 0); false = the code as it is.
+   The parameter fix_zero selects the repair of "0 means unset" in rebuildIndexInt (segment max starts
+   at MinInt64): true = the code as it is, false = the code before the repair (segment max starts at 0).
    Definitions only; lemmas are in proofs/CIndexP.v. *)
 From LR Require Import lib.Base model.TmTree.
 Open Scope Z_scope.
@@ -126,7 +126,7 @@ Definition pos_lt (ci : cindex) (cid ts : Z) : pres :=
 Section Rebuild.
   Variable fix_zero : bool.
 
-  Definition seg_init : Z * Z := (max_int64, if fix_zero then min_int64 else 0).   (* RecordsInfo{MinTs: MaxInt64} *)
+  Definition seg_init : Z * Z := (max_int64, if fix_zero then min_int64 else 0).   (* RecordsInfo{MinTs: MaxInt64, MaxTs: MinInt64}; before the repair RecordsInfo{MinTs: MaxInt64} *)
   Definition apply_ts (ri : Z * Z) (ts : Z) : Z * Z :=                            (* RecordsInfo.ApplyTs *)
     ((if ts <? fst ri then ts else fst ri), (if snd ri <? ts then ts else snd ri)).
 
